@@ -130,12 +130,14 @@ UNIVERSE = [
     # exceptions whose arguments are not strings (a missed lookup in a dict keyed by dates / tuples, an OSError, an exception given a dict)
     ("keyerror-date-key", lambda: KeyError(datetime.date(1999, 12, 31))), ("keyerror-tuple-key", lambda: KeyError((0, 1))),
     ("exception-dict-arg", lambda: Exception({"code": 7})), ("oserror", lambda: OSError(2, "No such file")),
+    # the documented custom-error recipe: not a library error, only a `coerce_value` method
+    ("exception-coercible-custom", lambda: harness.BusinessError("business rule", "BIZ")),
     ("coroutine-raising", _raising_coro), ("awaitable-failing", _FailingAwaitable),
     ("mappingproxy", lambda: types.MappingProxyType({"_typename": "O", "x": 1, "y": "q"})),
 ]
 TE_LABELS = ["te-bare", "te-path", "te-locations", "te-located", "raise-te-located"]
 CORE = ["None", "1", "'abc'", "1.5", "True", "nan", "2^31", "dict-typename-O", "dict-typename-unknown", "exception",
-        "list", "'RED'", "'nullify'", "pyenum-RED", "decimal-almost-1", "coroutine-raising", "awaitable-failing", "dict-typeobj-O3", "dict-typeobj-O2", "exception-unprintable", "multipleexception-empty", "keyerror-date-key"]
+        "list", "'RED'", "'nullify'", "pyenum-RED", "decimal-almost-1", "coroutine-raising", "awaitable-failing", "dict-typeobj-O3", "dict-typeobj-O2", "exception-unprintable", "multipleexception-empty", "keyerror-date-key", "exception-coercible-custom"]
 UDICT = dict(UNIVERSE)
 
 
